@@ -56,7 +56,7 @@ Ltac tidy :=
          | H : ?a = ?a -> _ |- _ => specialize (H eq_refl)
          end.
 
-Ltac finish := simpl in *; tidy; repeat split; intros; tidy; simpl in *; try congruence; try lia.
+Ltac finish := simpl in *; tidy; repeat split; intros; tidy; simpl in *; try congruence; try lia; auto.
 
 Lemma ins_fix_left_inv : forall c l l' k i r st t' st' tg,
     rbwf (T c l k i r) -> ins_inv l l' st ->
@@ -196,7 +196,7 @@ Proof.
     apply fix_left_bs_ok in F0; simpl; auto; try lia.
     inv F. unfold fix_post in *. destruct st; simpl in *; tidy; try discriminate.
     finish.
-  - eapply fix_left_bs_ok; eauto.
+  - simpl in F. eapply (fix_left_bs_ok cp n k i); eauto.
 Qed.
 
 Lemma fix_right_bs_ok : forall cp n k i s t' st tg,
@@ -229,5 +229,305 @@ Proof.
     apply fix_right_bs_ok in F0; simpl; auto; try lia.
     inv F. unfold fix_post in *. destruct st; simpl in *; tidy; try discriminate.
     finish.
-  - eapply fix_right_bs_ok; eauto.
+  - simpl in F. eapply (fix_right_bs_ok cp n k i); eauto.
+Qed.
+
+Ltac break_match_hyp H :=
+  match type of H with
+  | context [match ?x with _ => _ end] => destruct x eqn:?
+  end.
+
+Lemma fix_left_bs_tags : forall cp n k i s t' st tg,
+    fix_left_bs cp n k i s = (t', st, tg) -> ~ In TF_null_mirror tg.
+Proof.
+  unfold fix_left_bs; intros. repeat break_match_hyp H; inv H; simpl; intuition discriminate.
+Qed.
+
+Lemma fix_left_tags : forall cp n k i s t' st tg,
+    fix_left cp n k i s = (t', st, tg) -> ~ In TF_null_mirror tg.
+Proof.
+  unfold fix_left; intros.
+  destruct s as [|[] sl sk si sr]; [inv H; simpl; tauto| |eapply fix_left_bs_tags; eauto].
+  destruct sl; [inv H; simpl; tauto|].
+  destruct (fix_left_bs Red n k i (blacken (T c sl1 k0 i0 sl2))) as [[p' st0] tg0] eqn:F0.
+  inv H. apply fix_left_bs_tags in F0. simpl. intuition discriminate.
+Qed.
+
+Lemma fix_right_bs_tags : forall cp n k i s t' st tg,
+    fix_right_bs cp s k i n = (t', st, tg) -> ~ In TF_null_mirror tg.
+Proof.
+  unfold fix_right_bs; intros. repeat break_match_hyp H; inv H; simpl; intuition discriminate.
+Qed.
+
+Lemma fix_right_tags : forall cp n k i s t' st tg,
+    fix_right cp s k i n = (t', st, tg) -> ~ In TF_null_mirror tg.
+Proof.
+  unfold fix_right; intros.
+  destruct s as [|[] sl sk si sr]; [inv H; simpl; tauto| |eapply fix_right_bs_tags; eauto].
+  destruct sr; [inv H; simpl; tauto|].
+  destruct (fix_right_bs Red (blacken (T c sr1 k0 i0 sr2)) k i n) as [[p' st0] tg0] eqn:F0.
+  inv H. apply fix_right_bs_tags in F0. simpl. intuition discriminate.
+Qed.
+
+Local Arguments fix_left : simpl never.
+Local Arguments fix_right : simpl never.
+
+Lemma fix_post_del_inv_left : forall c l k i r t' st,
+    bh l = bh r -> fix_post c r t' st -> del_inv (T c l k i r) t' st.
+Proof.
+  intros c l k i r t' st B (W & P). destruct st; simpl in *; tidy; try contradiction.
+  - destruct c; finish.
+  - subst c. finish.
+Qed.
+
+Lemma fix_post_del_inv_right : forall c l k i r t' st,
+    bh l = bh r -> fix_post c l t' st -> del_inv (T c l k i r) t' st.
+Proof.
+  intros c l k i r t' st B (W & P). destruct st; simpl in *; tidy; try contradiction.
+  - destruct c; finish.
+  - subst c. finish.
+Qed.
+
+(* The hole is on the left and it is the first iteration (node == NULL): the right child cannot be
+   null, so `node != parent->right` selects the left-hand branch as intended. *)
+Lemma null_hole_left_sibling : forall c l k i r,
+    rbwf (T c l k i r) -> bh l = 1%nat -> r <> E.
+Proof. intros c l k i r W B ->. simpl in W. tidy. simpl in *. lia. Qed.
+
+Lemma resolve_left_inv : forall c l l' k i r st t' st' tg,
+    rbwf (T c l k i r) -> del_inv l l' st ->
+    resolve_left c l' k i r st = (t', st', tg) ->
+    del_inv (T c l k i r) t' st' /\ ~ In TF_null_mirror tg.
+Proof.
+  intros c l l' k i r st t' st' tg W I F.
+  pose proof W as W'. simpl in W'. destruct W' as (Wl & Wr & B & C).
+  destruct st; simpl in I, F.
+  - inv F. split; [destruct c; finish | simpl; tauto].
+  - destruct I as (-> & Bl).
+    destruct r as [|cr rl rk ri rr]; [simpl in B; lia|].
+    assert (P : fix_post c (T cr rl rk ri rr) t' st').
+    { eapply fix_left_ok with (n := E); eauto; simpl; auto.
+      - intros ->. apply C; auto.
+      - simpl in B. lia. }
+    split; [apply fix_post_del_inv_left; auto|eapply fix_left_tags; eauto].
+  - destruct I as (Wl' & Bl & Cl).
+    assert (P : fix_post c r t' st').
+    { eapply fix_left_ok with (n := l'); eauto.
+      - intros ->. apply C; auto.
+      - lia. }
+    split; [apply fix_post_del_inv_left; auto|eapply fix_left_tags; eauto].
+  - contradiction.
+Qed.
+
+Lemma resolve_right_inv : forall c l r r' k i st t' st' tg,
+    rbwf (T c l k i r) -> del_inv r r' st ->
+    resolve_right c l k i r' st = (t', st', tg) ->
+    del_inv (T c l k i r) t' st' /\ ~ In TF_null_mirror tg.
+Proof.
+  intros c l r r' k i st t' st' tg W I F.
+  pose proof W as W'. simpl in W'. destruct W' as (Wl & Wr & B & C).
+  destruct st; simpl in I, F.
+  - inv F. split; [destruct c; finish | simpl; tauto].
+  - destruct I as (-> & Br).
+    assert (P : fix_post c l t' st').
+    { eapply fix_right_ok with (n := E); eauto; simpl; auto.
+      - intros ->. apply C; auto.
+      - lia. }
+    split; [apply fix_post_del_inv_right; auto|eapply fix_right_tags; eauto].
+  - destruct I as (Wr' & Br & Cr).
+    assert (P : fix_post c l t' st').
+    { eapply fix_right_ok with (n := r'); eauto.
+      - intros ->. apply C; auto.
+      - lia. }
+    split; [apply fix_post_del_inv_right; auto|eapply fix_right_tags; eauto].
+  - contradiction.
+Qed.
+
+Local Arguments resolve_left : simpl never.
+Local Arguments resolve_right : simpl never.
+
+Lemma not_in_app : forall (a : tag) l1 l2, ~ In a l1 -> ~ In a l2 -> ~ In a (l1 ++ l2).
+Proof. intros a l1 l2 H1 H2 H. apply in_app_or in H. tauto. Qed.
+
+Lemma del_min_inv : forall t t' sk si st tg,
+    t <> E -> rbwf t -> del_min t = (t', sk, si, st, tg) ->
+    del_inv t t' st /\ ~ In TF_null_mirror tg.
+Proof.
+  induction t as [|c l IHl k i r _]; intros t' sk si st tg NE W F; [congruence|].
+  simpl in F. destruct l as [|cl ll lk li lr].
+  - destruct r as [|cr rl rk ri rr].
+    + inv F. split; [destruct c; finish | destruct c; simpl; intuition discriminate].
+    + inv F. split; [|simpl; intuition discriminate].
+      simpl in W. tidy. destruct cr; simpl in *; try lia.
+      destruct c; [specialize (H2 eq_refl); tidy; discriminate|]. finish.
+  - assert (Wl : rbwf (T cl ll lk li lr)) by (simpl in W |- *; tauto).
+    destruct (del_min (T cl ll lk li lr)) as [[[[l' sk0] si0] st0] tg0] eqn:D.
+    destruct (resolve_left c l' k i r st0) as [[t0 st1] tg1] eqn:Rs. inv F.
+    destruct (IHl _ _ _ _ _ ltac:(congruence) Wl eq_refl) as (I & NT).
+    destruct (resolve_left_inv _ _ _ _ _ _ _ _ _ _ W I Rs) as (I' & NT').
+    split; auto using not_in_app.
+Qed.
+
+Lemma unlink_inv : forall c l k i r t' st tg,
+    rbwf (T c l k i r) -> unlink c l r = (t', st, tg) ->
+    del_inv (T c l k i r) t' st /\ ~ In TF_null_mirror tg.
+Proof.
+  intros c l k i r t' st tg W F. unfold unlink in F.
+  destruct l as [|cl ll lk li lr]; destruct r as [|cr rl rk ri rr].
+  - inv F. split; [destruct c; finish | destruct c; simpl; intuition discriminate].
+  - inv F. split; [|simpl; intuition discriminate].
+    simpl in W. tidy. destruct cr; simpl in *; try lia.
+    destruct c; [specialize (H2 eq_refl); tidy; discriminate|]. finish.
+  - inv F. split; [|simpl; intuition discriminate].
+    simpl in W. tidy. destruct cl; simpl in *; try lia.
+    destruct c; [specialize (H2 eq_refl); tidy; discriminate|]. finish.
+  - destruct (del_min (T cr rl rk ri rr)) as [[[[r' sk] si] st0] tg0] eqn:D.
+    destruct (resolve_right c (T cl ll lk li lr) sk si r' st0) as [[t0 st1] tg1] eqn:Rs. inv F.
+    assert (Wr : rbwf (T cr rl rk ri rr)) by (simpl in W |- *; tauto).
+    assert (NE : T cr rl rk ri rr <> E) by discriminate.
+    destruct (del_min_inv _ _ _ _ _ _ NE Wr D) as (I & NT).
+    assert (W2 : rbwf (T c (T cl ll lk li lr) sk si (T cr rl rk ri rr))) by exact W.
+    destruct (resolve_right_inv _ _ _ _ _ _ _ _ _ _ W2 I Rs) as (I' & NT').
+    split; [exact I'|].
+    intros [H|H]; [destruct rl; discriminate|]. revert H. apply not_in_app; auto.
+Qed.
+
+Lemma del_inv_holds : forall x t,
+    rbwf t ->
+    match del x t with
+    | DelAbsent => True
+    | DelRes _ t' st tg => del_inv t t' st /\ ~ In TF_null_mirror tg
+    end.
+Proof.
+  induction t as [|c l IHl k i r IHr]; intros W; simpl; auto.
+  destruct (x ?= k)%Z.
+  - destruct (unlink c l r) as [[t' st] tg] eqn:U. eapply unlink_inv; eauto.
+  - assert (Wl : rbwf l) by (simpl in W; tauto). specialize (IHl Wl).
+    destruct (del x l) as [|j l' st tg]; auto. destruct IHl as (I & NT).
+    destruct (resolve_left c l' k i r st) as [[t' st'] tg'] eqn:Rs.
+    destruct (resolve_left_inv _ _ _ _ _ _ _ _ _ _ W I Rs). split; auto using not_in_app.
+  - assert (Wr : rbwf r) by (simpl in W; tauto). specialize (IHr Wr).
+    destruct (del x r) as [|j r' st tg]; auto. destruct IHr as (I & NT).
+    destruct (resolve_right c l k i r' st) as [[t' st'] tg'] eqn:Rs.
+    destruct (resolve_right_inv _ _ _ _ _ _ _ _ _ _ W I Rs). split; auto using not_in_app.
+Qed.
+
+(* a_rbt_remove + a_rbt_remove_adjust never violate an A_ASSUME / dereference NULL on a valid
+   tree, re-establish validity, and never take the `node == NULL == parent->right` branch for a
+   hole on the left *)
+Lemma remove_inv : forall x t,
+    rbwf t -> col t = Black ->
+    match remove x t with
+    | RemoveAbsent => True
+    | RemoveOk _ t' tg => rbwf t' /\ col t' = Black /\ ~ In TF_null_mirror tg
+    | RemoveFault => False
+    end.
+Proof.
+  intros x t W C. unfold remove. pose proof (del_inv_holds x t W) as H.
+  destruct (del x t) as [|j t' st tg]; auto. destruct H as (I & NT).
+  destruct st; simpl in I; tidy; subst; simpl; auto.
+  - repeat split; auto. apply not_in_app; auto. simpl; intuition discriminate.
+  - repeat split; auto. apply not_in_app; auto. simpl; intuition discriminate.
+Qed.
+
+(* ---------------------------------------------- the A_ASSUME facts, stated on their own *)
+
+(* whenever remove_adjust is (re)entered with a valid sibling subtree one black node higher than
+   the deficient side, the sibling is not null (rbt.c:239 a_rbt_color(sibling), :339 A_ASSUME(parent->left)),
+   and a red sibling has two non-null children (rbt.c:250 A_ASSUME(sibling->left), :344) *)
+Lemma assume_sibling_nonnull : forall n s, S (bh n) = bh s -> s <> E.
+Proof. intros n s B ->. simpl in B. lia. Qed.
+
+Lemma assume_red_sibling_children_nonnull : forall n sl sk si sr,
+    rbwf (T Red sl sk si sr) -> S (bh n) = bh (T Red sl sk si sr) -> sl <> E /\ sr <> E.
+Proof.
+  intros n sl sk si sr W B. simpl in W, B. tidy.
+  split; intros ->; simpl in *; lia.
+Qed.
+
+(* every time the model resolves a deficit the two facts above are available: this is the
+   content of del_inv (DNull / DNode give S (bh t') = bh t, and rbwf of the parent gives bh t =
+   bh sibling); consequently no fault status can arise: *)
+Lemma no_fault_on_valid_trees : forall x t,
+    rbwf t -> col t = Black -> remove x t <> RemoveFault /\ forall xi, insert x xi t <> InsertFault.
+Proof.
+  intros x t W C. split.
+  - pose proof (remove_inv x t W C). destruct (remove x t); congruence.
+  - intros xi. pose proof (insert_inv x xi t W C). destruct (insert x xi t); congruence.
+Qed.
+
+(* ----------------------------------- rbwf is the property as the statement words it *)
+
+Lemma rbwf_no_red_red : forall t, rbwf t -> no_red_red t.
+Proof. induction t; simpl; intuition. Qed.
+
+Lemma path_blacks_leftmost : forall t, path_blacks t (bh t).
+Proof.
+  induction t as [|c l IHl k i r _]; simpl; [constructor|].
+  change (match c with Red => 0 | Black => 1 end) with (blk c). now constructor.
+Qed.
+
+Lemma rbwf_paths : forall t, rbwf t -> forall n, path_blacks t n -> n = bh t.
+Proof.
+  induction t as [|c l IHl k i r IHr]; intros W n P.
+  - inv P. reflexivity.
+  - simpl in W. destruct W as (Wl & Wr & B & _). inv P.
+    + rewrite (IHl Wl n0 H5). destruct c; reflexivity.
+    + rewrite (IHr Wr n0 H5). rewrite <- B. destruct c; reflexivity.
+Qed.
+
+Lemma rbwf_equal_black_paths : forall t, rbwf t -> equal_black_paths t.
+Proof.
+  intros t W n1 n2 P1 P2. rewrite (rbwf_paths t W n1 P1), (rbwf_paths t W n2 P2). reflexivity.
+Qed.
+
+(* and conversely: rbwf is not stronger than the worded property *)
+Lemma worded_rbwf : forall t, no_red_red t -> equal_black_paths t -> rbwf t.
+Proof.
+  induction t as [|c l IHl k i r IHr]; simpl; auto. intros (C & Nl & Nr) P.
+  assert (Pl : equal_black_paths l).
+  { intros n1 n2 P1 P2.
+    pose proof (P _ _ (pb_L c l k i r n1 P1) (pb_L c l k i r n2 P2)). lia. }
+  assert (Pr : equal_black_paths r).
+  { intros n1 n2 P1 P2.
+    pose proof (P _ _ (pb_R c l k i r n1 P1) (pb_R c l k i r n2 P2)). lia. }
+  repeat split; auto; try (apply C; auto).
+  pose proof (P _ _ (pb_L c l k i r _ (path_blacks_leftmost l)) (pb_R c l k i r _ (path_blacks_leftmost r))).
+  lia.
+Qed.
+
+(* ------------------------------------------------------------- logarithmic height *)
+
+Lemma rbwf_height : forall t,
+    rbwf t -> (height t <= 2 * bh t + match col t with Red => 1 | Black => 0 end)%nat.
+Proof.
+  induction t as [|c l IHl k i r IHr]; simpl; auto. intros (Wl & Wr & B & C).
+  specialize (IHl Wl). specialize (IHr Wr).
+  destruct c.
+  - destruct (C eq_refl) as (Cl & Cr). rewrite Cl in IHl. rewrite Cr in IHr. lia.
+  - destruct (col l), (col r); lia.
+Qed.
+
+Lemma rbwf_size : forall t, rbwf t -> (2 ^ bh t <= size t + 1)%nat.
+Proof.
+  induction t as [|c l IHl k i r IHr]; simpl; auto. intros (Wl & Wr & B & C).
+  specialize (IHl Wl). specialize (IHr Wr). rewrite <- B in IHr.
+  destruct c.
+  - rewrite Nat.add_0_r. lia.
+  - replace (bh l + 1)%nat with (S (bh l)) by lia. rewrite Nat.pow_succ_r'. lia.
+Qed.
+
+Lemma rb_height_log_lemma : forall t,
+    rbwf t -> col t = Black -> (height t <= 2 * Nat.log2 (size t + 1))%nat.
+Proof.
+  intros t W C. pose proof (rbwf_height t W) as H. rewrite C in H.
+  pose proof (rbwf_size t W) as S.
+  apply Nat.log2_le_mono in S. rewrite Nat.log2_pow2 in S by lia. lia.
+Qed.
+
+Lemma rbwf_iff_worded : forall t, rbwf t <-> no_red_red t /\ equal_black_paths t.
+Proof.
+  intros t. split.
+  - intros W. split; [apply rbwf_no_red_red | apply rbwf_equal_black_paths]; assumption.
+  - intros (A & B). apply worded_rbwf; assumption.
 Qed.
